@@ -2,12 +2,12 @@
 # Re-runs every stored seeded change the official way: git -C /repo apply; quick check; git -C /repo checkout -- .
 # Updates seeded/<id>/meta.json (check_run, detected). Nothing else may read /repo meanwhile.
 cd "$(dirname "$0")/.." || exit 2
-for D in seeded/*/; do
+for D in ${SEEDS:-seeded/*/}; do
   ID=$(basename "$D"); PROP=$(python3 -c "import json;print(json.load(open('$D/meta.json'))['property'])")
   if grep -q '"superseded_by_fix"' "$D/meta.json"; then echo "$ID: superseded by a fix commit (see meta.json), skipped"; continue; fi
   git -C /repo apply "$PWD/$D/patch.diff" || { echo "$ID: patch does not apply"; continue; }
   VERIF_EVIDENCE_DIR=/tmp/ev-rerun ./run.sh "$PROP" quick > /tmp/rerun-$ID.log 2>&1; RC=$?
-  git -C /repo checkout -- .
+  git -C /repo checkout -- .; git -C /repo clean -fdq   # (a patch may have added files)
   VLINE=$(grep -m1 '^VIOLATION' /tmp/rerun-$ID.log); CLAUSE=$(grep -m1 'clause=' /tmp/rerun-$ID.log | sed 's/^ *//')
   python3 - "$D/meta.json" "$RC" "$VLINE" "$CLAUSE" "$PROP" <<'PY'
 import json,sys
